@@ -143,6 +143,10 @@ def cases(tier, seed):
     p = {'prior': ['identity', 'covariance', 'random', '@spd'][(i // 2) % 4],
          'tol': [1e-3, 1e-3, 1e-6][i % 3],
          'max_iter': [1000, 1000, 5, 1000, 1][i % 5]}
+    if mode == 'satisfied':
+      # (i % 8 == 5 always lands on the same entry of the list above)
+      p['prior'] = ['random', '@spd-ill', '@spd', 'covariance', 'identity',
+                    '@spd-ill'][(i // 8) % 6]
     if name == 'LSML_Supervised':
       p['n_constraints'] = int(r.choice([8, 15, 30]))
     # (progress output is a configuration like any other: it must not
